@@ -1,5 +1,7 @@
 import Norad.Lemmas.C05Bridge
 import Norad.Lemmas.GlifGen
+import Norad.Props.C11
+import Norad.Props.C12
 /-!
 # norad's parser reads a whole document of the specification-level writer (C05, last phase)
 
@@ -592,6 +594,286 @@ theorem interp_gdocOf (nc : Color → Color) (libD : Dict) (d : GlyphD) :
       simp [applyG, oitsOf, List.foldl_append, foldl_contours, foldl_components, glyphOf]
   · by_cases he : n = "" <;> cases d.image <;> cases d.lib <;>
       simp [he, applyG, oitsOf, List.foldl_append, foldl_contours, foldl_components, glyphOf, L]
+
+/-! ### legality stated on the description -/
+
+/-- the identifiers of a description, in the order `specWrite` writes their objects -/
+def descIdents (d : GlyphD) : List Str :=
+  d.guidelines.flatMap (fun g => (g.identifier.map L).toList) ++ d.anchors.flatMap (fun a => (a.identifier.map L).toList) ++
+  d.contours.flatMap (fun c => (c.identifier.map L).toList ++ c.points.flatMap (fun p => (p.identifier.map L).toList)) ++
+  d.components.flatMap (fun k => (k.identifier.map L).toList)
+
+/-- a point of the description as the contour rules see it -/
+def descPt (p : PointD) : C11.Pt := ⟨ptG p.typ, p.smooth⟩
+
+/-- **the rules of a legal glyph, on the description alone**: `DescOK`, a valid glyph name, an image file name without
+    directory, identifiers valid and pairwise different across ALL objects, every contour legal (`C11.Legal`, the
+    declarative rule of C11) -/
+structure DescLegal (ok : Nat → Prop) (nc : Color → Color) (d : GlyphD) : Prop where
+  name : validName (L d.name) = true
+  desc : DescOK ok nc d
+  imageName : ∀ i, d.image = some i → imageNameOk (L i.fileName) = true
+  identsValid : ∀ i, i ∈ descIdents d → validIdent i = true
+  identsNodup : (descIdents d).Nodup
+  contours : ∀ c, c ∈ d.contours → C11.Legal (c.points.map descPt)
+
+theorem flatMap_map' {α β γ : Type} (w : α → β) (f : β → List γ) (g : α → List γ) (h : ∀ x, f (w x) = g x) (l : List α) :
+    (l.map w).flatMap f = l.flatMap g := by
+  induction l with
+  | nil => rfl
+  | cons a r ih => rw [List.map_cons, List.flatMap_cons, List.flatMap_cons, ih, h]
+
+theorem ids_points (ps : List PointD) :
+    (ps.map fun p => CIt.point (pointG p)).flatMap CIt.ids = ps.flatMap (fun p => (p.identifier.map L).toList) :=
+  flatMap_map' _ _ _ (fun _ => rfl) ps
+
+theorem ids_oits (d : GlyphD) :
+    (oitsOf d).flatMap OIt.ids =
+      d.contours.flatMap (fun c => (c.identifier.map L).toList ++ c.points.flatMap (fun p => (p.identifier.map L).toList)) ++
+      d.components.flatMap (fun k => (k.identifier.map L).toList) := by
+  unfold oitsOf
+  rw [List.flatMap_append]
+  congr 1
+  · exact flatMap_map' _ _ _ (fun c => by simp [OIt.ids, ids_points]) d.contours
+  · exact flatMap_map' _ _ _ (fun _ => rfl) d.components
+
+theorem ids_items (libD : Dict) (d : GlyphD) : (itemsOf libD d).flatMap BIt.ids = descIdents d := by
+  have hU : (d.unicodes.map BIt.unicode).flatMap BIt.ids = [] := by
+    induction d.unicodes with
+    | nil => rfl
+    | cons c r ih => simp [List.flatMap_cons, BIt.ids, ih]
+  have hG : (d.guidelines.map fun g => BIt.guideline (guidelineG g)).flatMap BIt.ids =
+      d.guidelines.flatMap (fun g => (g.identifier.map L).toList) :=
+    flatMap_map' _ _ _ (fun _ => rfl) d.guidelines
+  have hA : (d.anchors.map fun a => BIt.anchor (anchorG a)).flatMap BIt.ids =
+      d.anchors.flatMap (fun a => (a.identifier.map L).toList) :=
+    flatMap_map' _ _ _ (fun _ => rfl) d.anchors
+  unfold itemsOf descIdents
+  simp only [List.flatMap_append, hU, hG, hA]
+  cases d.note <;> cases d.image <;> cases d.lib <;> simp [BIt.ids, ids_oits, List.append_assoc]
+
+theorem countP_map_false {α : Type} (p : BIt → Bool) (w : α → BIt) (h : ∀ x, p (w x) = false) (l : List α) :
+    (l.map w).countP p = 0 := by
+  induction l with
+  | nil => rfl
+  | cons a r ih => simp [List.countP_cons, h, ih]
+
+theorem toPt_points (ps : List PointD) :
+    ((ps.map fun p => CIt.point (pointG p)).flatMap CIt.pts).map toPt = ps.map descPt := by
+  rw [pts_points]
+  induction ps with
+  | nil => rfl
+  | cons p r ih => simp [toPt, pPoint, pointG, descPt, ih]
+
+/-- **the described document is legal in the glif builder's sense** whenever the description is legal -/
+theorem legalItems_of_descLegal {ok : Nat → Prop} {nc : Color → Color} (libD : Dict) {d : GlyphD}
+    (h : DescLegal ok nc d) : LegalItems ok (itemsOf libD d) := by
+  have hid : ∀ (o : Option String) (i : Str), o.map L = some i → i ∈ (o.map L).toList := by
+    intro o i hi; simp [hi]
+  refine ⟨?valid, ?ids, ?adv, ?out, ?lib, ?note, ?img⟩
+  case ids => rw [ids_items]; exact h.identsNodup
+  case adv =>
+    unfold itemsOf
+    cases d.note <;> cases d.image <;> cases d.lib <;>
+      simp [List.countP_append, List.countP_cons, BIt.isAdvance, countP_map_false BIt.isAdvance BIt.unicode (fun _ => rfl),
+            countP_map_false BIt.isAdvance (fun g => BIt.guideline (guidelineG g)) (fun _ => rfl),
+            countP_map_false BIt.isAdvance (fun a => BIt.anchor (anchorG a)) (fun _ => rfl)]
+  case out =>
+    unfold itemsOf
+    cases d.note <;> cases d.image <;> cases d.lib <;>
+      simp [List.countP_append, List.countP_cons, BIt.isOutline, countP_map_false BIt.isOutline BIt.unicode (fun _ => rfl),
+            countP_map_false BIt.isOutline (fun g => BIt.guideline (guidelineG g)) (fun _ => rfl),
+            countP_map_false BIt.isOutline (fun a => BIt.anchor (anchorG a)) (fun _ => rfl)]
+  case lib =>
+    unfold itemsOf
+    cases d.note <;> cases d.image <;> cases d.lib <;>
+      simp [List.countP_append, List.countP_cons, BIt.isLib, countP_map_false BIt.isLib BIt.unicode (fun _ => rfl),
+            countP_map_false BIt.isLib (fun g => BIt.guideline (guidelineG g)) (fun _ => rfl),
+            countP_map_false BIt.isLib (fun a => BIt.anchor (anchorG a)) (fun _ => rfl)]
+  case note =>
+    unfold itemsOf
+    cases d.note <;> cases d.image <;> cases d.lib <;>
+      simp [List.countP_append, List.countP_cons, BIt.isNote, countP_map_false BIt.isNote BIt.unicode (fun _ => rfl),
+            countP_map_false BIt.isNote (fun g => BIt.guideline (guidelineG g)) (fun _ => rfl),
+            countP_map_false BIt.isNote (fun a => BIt.anchor (anchorG a)) (fun _ => rfl)]
+  case img =>
+    unfold itemsOf
+    cases d.note <;> cases d.image <;> cases d.lib <;>
+      simp [List.countP_append, List.countP_cons, BIt.isImage, countP_map_false BIt.isImage BIt.unicode (fun _ => rfl),
+            countP_map_false BIt.isImage (fun g => BIt.guideline (guidelineG g)) (fun _ => rfl),
+            countP_map_false BIt.isImage (fun a => BIt.anchor (anchorG a)) (fun _ => rfl)]
+  case valid =>
+    have hv := h.desc
+    -- identifiers of each kind of object are among `descIdents`
+    have iG : ∀ g, g ∈ d.guidelines → ∀ i, g.identifier.map L = some i → validIdent i = true := fun g hg i hi =>
+      h.identsValid i (by
+        unfold descIdents
+        simp only [List.mem_append, List.mem_flatMap]
+        exact Or.inl (Or.inl (Or.inl ⟨g, hg, hid _ _ hi⟩)))
+    have iA : ∀ a, a ∈ d.anchors → ∀ i, a.identifier.map L = some i → validIdent i = true := fun a ha i hi =>
+      h.identsValid i (by
+        unfold descIdents
+        simp only [List.mem_append, List.mem_flatMap]
+        exact Or.inl (Or.inl (Or.inr ⟨a, ha, hid _ _ hi⟩)))
+    have iC : ∀ c, c ∈ d.contours → ∀ i, c.identifier.map L = some i → validIdent i = true := fun c hc i hi =>
+      h.identsValid i (by
+        unfold descIdents
+        simp only [List.mem_append, List.mem_flatMap]
+        exact Or.inl (Or.inr ⟨c, hc, Or.inl (hid _ _ hi)⟩))
+    have iP : ∀ c, c ∈ d.contours → ∀ p, p ∈ c.points → ∀ i, p.identifier.map L = some i → validIdent i = true :=
+      fun c hc p hp i hi => h.identsValid i (by
+        unfold descIdents
+        simp only [List.mem_append, List.mem_flatMap]
+        exact Or.inl (Or.inr ⟨c, hc, Or.inr ⟨p, hp, hid _ _ hi⟩⟩))
+    have iK : ∀ k, k ∈ d.components → ∀ i, k.identifier.map L = some i → validIdent i = true := fun k hk i hi =>
+      h.identsValid i (by
+        unfold descIdents
+        simp only [List.mem_append, List.mem_flatMap]
+        exact Or.inr ⟨k, hk, hid _ _ hi⟩)
+    intro it hit
+    unfold itemsOf at hit
+    simp only [List.mem_append, List.mem_map, List.mem_singleton] at hit
+    rcases hit with ((((((hit | hit) | hit) | hit) | hit) | hit) | hit) | hit
+    · subst hit; exact ⟨hv.width, hv.height⟩
+    · obtain ⟨c, hc, rfl⟩ := hit; exact hv.unicodes c hc
+    · cases hn : d.note <;> simp [hn] at hit; subst hit; trivial
+    · cases hi : d.image with
+      | none => simp [hi] at hit
+      | some i =>
+        simp [hi] at hit; subst hit
+        exact ⟨h.imageName i hi, (hv.image i hi).1⟩
+    · obtain ⟨g, hg, rfl⟩ := hit
+      obtain ⟨⟨l, h0⟩, h1, h2, h3, h4, _, _⟩ := hv.guidelines g hg
+      refine ⟨?_, fun n hn => ?_, fun i hi => iG g hg i hi⟩
+      · obtain ⟨x, y, angle, name, color, ident⟩ := g
+        simp only at h0 h1 h2 h3
+        cases x <;> cases y <;> cases angle <;> simp [lineOf] at h0 <;> subst h0 <;>
+          simp [guidelineG, lineOf] <;> simp_all
+      · simp [guidelineG] at hn
+        obtain ⟨n', hn', rfl⟩ := hn
+        exact h4 n' hn'
+    · obtain ⟨a, ha, rfl⟩ := hit
+      obtain ⟨h1, h2, h3, _, _⟩ := hv.anchors a ha
+      refine ⟨h1, h2, fun n hn => ?_, fun i hi => iA a ha i hi⟩
+      simp [anchorG] at hn
+      obtain ⟨n', hn', rfl⟩ := hn
+      exact h3 n' hn'
+    · subst hit
+      intro oit ho
+      unfold oitsOf at ho
+      simp only [List.mem_append, List.mem_map] at ho
+      rcases ho with ⟨c, hc, rfl⟩ | ⟨k, hk, rfl⟩
+      · refine ⟨?_, ?_, fun i hi => iC c hc i hi⟩
+        · intro cit hcit
+          simp only [List.mem_map] at hcit
+          obtain ⟨p, hp, rfl⟩ := hcit
+          obtain ⟨h1, h2, h3⟩ := hv.points c hc p hp
+          refine ⟨h1, h2, fun n hn => ?_, fun i hi => iP c hc p hp i hi⟩
+          simp [pointG] at hn
+          obtain ⟨n', hn', rfl⟩ := hn
+          exact h3 n' hn'
+        · rw [toPt_points]
+          exact (C11.accepts_iff_legal _).2 (h.contours c hc)
+      · obtain ⟨h1, h2, _⟩ := hv.components k hk
+        exact ⟨h1, h2, fun i hi => iK k hk i hi⟩
+    · cases hl : d.lib <;> simp [hl] at hit; subst hit; trivial
+
+/-- **norad's parser reads a whole document of the specification-level writer**, hypotheses on the description only -/
+theorem parse_specWrite_legal (hF : Codec F rd nc ok) (hP : ParseCodec rd rdr ok) (rl : String → LibV) (libD : Dict)
+    (d : GlyphD) (hd : DescLegal ok nc d) (hl : ∀ t, d.lib = some t → rl t = .dict libD) :
+    parseGlif rd (eventsOf rl (specWrite rdr d)) = loadObjectLibs (glyphOf nc libD d) := by
+  rw [← interp_gdocOf]
+  exact parse_specWrite hF hP rl libD d hd.name hd.desc hl (legalItems_of_descLegal libD hd)
+
+/-! ### the rules are decidable -/
+
+instance (b : Nat) : Decidable (scaleStd b) := by unfold scaleStd; infer_instance
+instance (b : Nat) : Decidable (offsetStd b) := by unfold offsetStd; infer_instance
+instance (t : Affine Nat) : Decidable (affineStd t) := by unfold affineStd; infer_instance
+instance (pts : List C11.Pt) : Decidable (C11.Legal pts) := decidable_of_iff _ (C11.accepts_iff_legal pts)
+instance (c : Nat) : Decidable (ValidCodepoint c) := by unfold ValidCodepoint; infer_instance
+instance (g : GuidelineD) : Decidable (∃ l, lineOf g = some l) :=
+  decidable_of_iff ((lineOf g).isSome = true) (by cases lineOf g <;> simp)
+
+section
+variable (ok : Nat → Prop) [DecidablePred ok] (nc : Color → Color)
+
+instance (t : Affine Nat) : Decidable (okAffine ok t) := by unfold okAffine; infer_instance
+instance (c : Option ColorD) : Decidable (okColor ok c) := by
+  unfold okColor
+  cases c with
+  | none => exact isTrue (by intro x hx; cases hx)
+  | some x =>
+    exact decidable_of_iff ((ok x.r ∧ unitOk x.r = true) ∧ (ok x.g ∧ unitOk x.g = true) ∧ (ok x.b ∧ unitOk x.b = true) ∧
+      (ok x.a ∧ unitOk x.a = true)) ⟨fun h y hy => by cases hy; exact h, fun h => h x rfl⟩
+instance (c : Option ColorD) : Decidable (ncFixed nc c) := by
+  unfold ncFixed
+  cases c with
+  | none => exact isTrue (by intro x hx; cases hx)
+  | some x => exact decidable_of_iff (nc (colG x) = colG x) ⟨fun h y hy => by cases hy; exact h, fun h => h x rfl⟩
+
+/-- `∀ v, o = some v → p v` is decidable -/
+instance optForall {α : Type} (o : Option α) (p : α → Prop) [DecidablePred p] : Decidable (∀ v, o = some v → p v) := by
+  cases o with
+  | none => exact isTrue (by intro v hv; cases hv)
+  | some x => exact decidable_of_iff (p x) ⟨fun h v hv => by cases hv; exact h, fun h => h x rfl⟩
+
+instance (d : GlyphD) : Decidable (DescOK ok nc d) :=
+  decidable_of_iff
+    (ok d.width ∧ ok d.height ∧ offsetStd d.width ∧ offsetStd d.height ∧ (∀ c, c ∈ d.unicodes → ValidCodepoint c) ∧
+     (∀ i, d.image = some i → okAffine ok i.t ∧ affineStd i.t ∧ okColor ok i.color ∧ ncFixed nc i.color) ∧
+     (∀ g, g ∈ d.guidelines → (∃ l, lineOf g = some l) ∧ (∀ v, g.x = some v → ok v) ∧ (∀ v, g.y = some v → ok v) ∧
+       (∀ v, g.angle = some v → ok v ∧ angleOk v = true) ∧ (∀ n, g.name = some n → validName (L n) = true) ∧
+       okColor ok g.color ∧ ncFixed nc g.color) ∧
+     (∀ a, a ∈ d.anchors → ok a.x ∧ ok a.y ∧ (∀ n, a.name = some n → validName (L n) = true) ∧
+       okColor ok a.color ∧ ncFixed nc a.color) ∧
+     (∀ c, c ∈ d.contours → ∀ p, p ∈ c.points → ok p.x ∧ ok p.y ∧ (∀ n, p.name = some n → validName (L n) = true)) ∧
+     (∀ k, k ∈ d.components → validName (L k.base) = true ∧ okAffine ok k.t ∧ affineStd k.t))
+    ⟨fun ⟨a, b, c, e, f, g, h, i, j, k⟩ => ⟨a, b, c, e, f, g, h, i, j, k⟩,
+     fun ⟨a, b, c, e, f, g, h, i, j, k⟩ => ⟨a, b, c, e, f, g, h, i, j, k⟩⟩
+
+instance (d : GlyphD) : Decidable (DescLegal ok nc d) :=
+  decidable_of_iff
+    (validName (L d.name) = true ∧ DescOK ok nc d ∧ (∀ i, d.image = some i → imageNameOk (L i.fileName) = true) ∧
+     (∀ i, i ∈ descIdents d → validIdent i = true) ∧ (descIdents d).Nodup ∧
+     (∀ c, c ∈ d.contours → C11.Legal (c.points.map descPt)))
+    ⟨fun ⟨a, b, c, e, f, g⟩ => ⟨a, b, c, e, f, g⟩, fun ⟨a, b, c, e, f, g⟩ => ⟨a, b, c, e, f, g⟩⟩
+
+/-- **the executable form of the rules** -/
+def descLegalB (d : GlyphD) : Bool := decide (DescLegal ok nc d)
+
+omit [DecidablePred ok] in
+theorem descLegalB_iff' (d : GlyphD) [Decidable (DescLegal ok nc d)] : decide (DescLegal ok nc d) = true ↔ DescLegal ok nc d := by
+  simp
+
+theorem descLegalB_iff (d : GlyphD) : descLegalB ok nc d = true ↔ DescLegal ok nc d := by
+  simp [descLegalB]
+
+end
+
+/-! ### other legal spellings of the same description -/
+
+theorem evsPerm_refl : ∀ l : List Ev, EvsPerm l l
+  | [] => .nil
+  | e :: r => .cons (.refl e) (evsPerm_refl r)
+
+
+/-- **the other spellings an independent writer may choose**, as an instance of `Glif.legal_accepted`: the description
+    written with defaults OMITTED (the grammar's gated rendering: no `type` on off-curve points, no `smooth="no"`, no
+    coefficient at its default, no `±0` advance attribute), numbers and colours in ANY spelling `F` that reads back,
+    attributes of every element in ANY order (`EvsPerm`), a declaration and comments before the root, `formatMinor="0"`
+    written or not, anything after `</glyph>` — is accepted and yields the same glyph as `specWrite`'s document. -/
+theorem parse_other_spellings (hF : Codec F rd nc ok) (libD : Dict) (d : GlyphD) (hd : DescLegal ok nc d)
+    (pro tr : List Ev) (minor : Bool) (hp : ∀ e, e ∈ pro → isProlog e = true)
+    (hol : ∀ v, dictGet objectLibsKey (glyphOf nc libD d).lib = some v → ∃ ol, v = PV.dict ol ∧ AllDicts ol)
+    {evs : List Ev}
+    (hperm : EvsPerm (render F { prolog := pro, name := L d.name, minor := minor, items := itemsOf libD d, trailer := tr }) evs) :
+    ∃ g, parseGlif rd evs = .ok g ∧ loadObjectLibs (glyphOf nc libD d) = .ok g := by
+  have hi : interp nc { prolog := pro, name := L d.name, minor := minor, items := itemsOf libD d, trailer := tr } =
+      glyphOf nc libD d := by rw [← interp_gdocOf]; rfl
+  have := legal_accepted hF { prolog := pro, name := L d.name, minor := minor, items := itemsOf libD d, trailer := tr }
+    hp hd.name (legalItems_of_descLegal libD hd) (by rw [hi]; exact hol) hperm
+  rwa [hi] at this
 
 end
 end C05Bridge
